@@ -535,11 +535,11 @@ class RDSystem :
         valid = True
         self._error_msg = ""
         
-        if self.space.size() * self.system.nspecies() != len(self.state) : 
+        if self.space.size() * self.network.nspecies() != len(self.state) : 
             valid = False
             self._error_msg += "error : state size does not match space size * number of species."
         
-        if self.space.size() * self.system.nspecies() != len(self.chemostats) : 
+        if self.space.size() * self.network.nspecies() != len(self.chemostats) : 
             valid = False
             self._error_msg += "error : chemostat map size does not match space size * number of species."
             
